@@ -3,13 +3,13 @@
 \* hex anchors, single-page on/off: the documented file set and link rule imply the C16 invariants.
 SPECIFICATION Spec
 CONSTANTS
-  MaxEntries = 4
+  MaxEntries = 3
   MaxRefs = 1
   Types = {"c", "b"}
   Pts = {0, 2}
-  Layouts = {1, 2}
-  AnchorKinds = {"d", "x"}
-  Deviation = "none"
+  Layouts = {2}
+  AnchorKinds = {"x"}
+  Deviation = "single-remote-operand"
 INVARIANT TypeOK
 INVARIANT WrittenOnce
 INVARIANT DocExpectedExist
